@@ -9,6 +9,7 @@ import (
 	"os/exec"
 	"path/filepath"
 	"regexp"
+	"strings"
 
 	"github.com/alephium/wormhole-fork/node/pkg/processor"
 	"github.com/alephium/wormhole-fork/node/pkg/vaa"
@@ -100,6 +101,69 @@ func main() {
 			r.Violation("quorum: "+bad, fmt.Sprintf("%+v", rw), rw)
 		}
 	}
+	// ---- the contracts' USE of their threshold: the gate that rejects a VAA for lack of quorum, extracted from
+	// verifyVM (Solidity) and parseAndVerifyVAA (Ralph), evaluated for every set size n = 1..255 and every
+	// signature count s = 0..n: rejected for lack of quorum exactly when s < floor(2n/3)+1
+	{
+		solSrc, _ := os.ReadFile(filepath.Join(r.Repo, "ethereum/contracts/Messages.sol"))
+		gm := regexp.MustCompile(`if\s*\(([^{}]+?)\)\s*\{\s*return\s*\(false,\s*"no quorum"\)`).FindAllStringSubmatch(string(solSrc), -1)
+		if len(gm) != 1 {
+			ev.Broken("Messages.sol: the no-quorum gate matched %d times, want exactly 1", len(gm))
+		}
+		cond := gm[0][1]
+		cond = strings.ReplaceAll(cond, "vm.signatures.length", "s")
+		cond = regexp.MustCompile(`quorum\(\s*guardianSet\.keys\.length\s*\)`).ReplaceAllString(cond, "("+strings.ReplaceAll(sol.String(), solVar, "n")+")")
+		cond = strings.ReplaceAll(cond, "guardianSet.keys.length", "n")
+		ralSrcB, _ := os.ReadFile(ralSrc)
+		am := regexp.MustCompile(`assert!\(\s*([\w \*\+\-/\(\)]+?)\s*(<=|<|>=|>)\s*([\w \*\+\-/\(\)]+?)\s*,\s*ErrorCodes\.InvalidSignatureSize\)`).FindAllStringSubmatch(string(ralSrcB), -1)
+		if len(am) != 1 {
+			ev.Broken("governance.ral: the signature-size assertion matched %d times, want exactly 1", len(am))
+		}
+		// the Ralph assertion states what is ACCEPTED; negate it to get the rejection gate
+		neg := map[string]string{"<=": ">", "<": ">=", ">=": "<", ">": "<="}
+		rcond := am[0][1] + " " + neg[am[0][2]] + " " + am[0][3]
+		rcond = strings.ReplaceAll(rcond, "quorumSize", "("+strings.ReplaceAll(ral.String(), ralVar, "n")+")")
+		rcond = strings.ReplaceAll(rcond, "signatureSize", "s")
+		rcond = strings.ReplaceAll(rcond, "guardianSize", "n")
+		for name, c := range map[string]string{"Messages.sol verifyVM": cond, "governance.ral parseAndVerifyVAA": rcond} {
+			var op string
+			for _, o := range []string{"<=", ">=", "<", ">"} {
+				if strings.Contains(c, o) {
+					op = o
+					break
+				}
+			}
+			parts := strings.SplitN(c, op, 2)
+			if op == "" || len(parts) != 2 {
+				ev.Broken("%s: gate %q outside the recognised subset", name, c)
+			}
+			lhs, e1 := cm.ParseExpr(parts[0])
+			rhs, e2 := cm.ParseExpr(parts[1])
+			if e1 != nil || e2 != nil {
+				ev.Broken("%s: gate %q outside the recognised subset: %v %v", name, c, e1, e2)
+			}
+			r.Set("gate_"+strings.Fields(name)[0], c)
+			bad := 0
+			for n := 1; n <= 255; n++ {
+				for sg := 0; sg <= n; sg++ {
+					env := map[string]int64{"n": int64(n), "s": int64(sg)}
+					a, ea := lhs.Eval(env)
+					b, eb := rhs.Eval(env)
+					if ea != nil || eb != nil {
+						ev.Broken("%s: gate does not evaluate: %v %v", name, ea, eb)
+					}
+					rejected := map[string]bool{"<": a < b, "<=": a <= b, ">": a > b, ">=": a >= b}[op]
+					want := sg < 2*n/3+1
+					r.Add("gate_evaluations", 1)
+					if rejected != want && bad < 3 {
+						bad++
+						r.Violation("quorum gate: "+name+" does not reject for lack of quorum exactly when fewer than floor(2n/3)+1 signatures are present", fmt.Sprintf("gate %q: n=%d signatures=%d rejected=%v want %v", c, n, sg, rejected, want), map[string]interface{}{"gate": c, "n": n, "signatures": sg})
+					}
+				}
+			}
+		}
+	}
+
 	// ---- the node's USE of the threshold: "a VAA the node considers complete is accepted on chain".
 	// Explicit-state search over the real processor handlers (sets in any order, local observation, own
 	// loopback, observations by every key of both sets); every VAA the node broadcasts as complete or writes
